@@ -10,6 +10,7 @@ import z3
 
 from . import api, ops
 from .sym import (
+    SMemView,
     PyRaise,
     SBool,
     SByteArray,
@@ -83,7 +84,7 @@ def _concrete(fn: Any, args: list, kwargs: dict) -> Any:
 @model(len)
 def _len(it: Any, args: list, kwargs: dict, f: Any) -> Any:
     (v,) = args
-    if isinstance(v, (SBytes, SByteArray)):
+    if isinstance(v, (SBytes, SByteArray, SMemView)):
         return mk_int(as_sbytes(v).n)
     if isinstance(v, SSeq):
         return mk_int(v.n)
@@ -371,7 +372,7 @@ def _bytes(it: Any, args: list, kwargs: dict, f: Any) -> Any:
         return ops.bytes_zero(t)
     if isinstance(v, SBool):
         return ops.bytes_zero(int_term(v))
-    if isinstance(v, (SBytes, SByteArray)):
+    if isinstance(v, (SBytes, SByteArray, SMemView)):
         return as_sbytes(v)
     if isinstance(v, SSeq):
         # sequence of ints (lazy comprehension): each element must be in range(256)
@@ -390,6 +391,21 @@ def _bytes(it: Any, args: list, kwargs: dict, f: Any) -> Any:
     if isinstance(v, SObj):
         raise Unsupported("bytes() of object")
     return _concrete(bytes, args, kwargs)
+
+
+@model(memoryview)
+def _memoryview(it: Any, args: list, kwargs: dict, f: Any) -> Any:
+    v = args[0]
+    if isinstance(v, SMemView):
+        return v
+    if isinstance(v, SByteArray):
+        return SMemView(v, z3.IntVal(0), v.v.n)
+    if isinstance(v, bytearray):
+        raise Unsupported("memoryview of a concrete bytearray")
+    if is_bytes_like(v):
+        b = as_sbytes(v)
+        return SMemView(b, z3.IntVal(0), b.n)
+    raise PyRaise(SExc(TypeError, ("memoryview: a bytes-like object is required",)))
 
 
 @model(bytearray)
